@@ -191,3 +191,28 @@ package blockwise
 //@   ensures [cuts-at-most-once] callCount(createSendingMessage) <= 1
 //@   ensures [starts-where-the-option-says] called(createSendingMessage) && callRes(createSendingMessage, 0, 2) == nil ==> !callArg(createSendingMessage, 0, 5) && createSendingMessage.start == (block / 16) * szxSize(min(block % 8, maxSZX))
 //@   ensures [first-block-replaces-message] called(createSendingMessage) && callRes(createSendingMessage, 0, 2) == nil ==> callCount(Swap) == 1 && callArg(Swap, 0, 1) == callRes(createSendingMessage, 0, 0)
+
+// ---- C03 / C04: Do (a request that may need a block-wise upload) -----------------------------------------
+//
+// Do claims the request's token in the table of messages being sent in ONE atomic step (LoadOrStore): a
+// token that belongs to a request still being sent is refused and nothing of that request is touched -
+// its entry is neither replaced nor removed, and nothing is sent (seed C03b-1 replaced the claim by a
+// plain Store). The entry of an accepted request is removed again when the call returns, on every path,
+// after the exchange. The request is handed to `do` at most once; a body that needs more than one block
+// goes out as a clone that carries block 0 (Block1 = NUM 0, M = 1, the negotiated size exponent), never
+// the original.
+//
+//@ func (*BlockWise) Do(r *pool.Message, maxSzx SZX, maxMessageSize uint32, do func(req *pool.Message) (*pool.Message, error)) (resp *pool.Message, err error)
+//@   requires b != nil && r != nil && b.sendingMessagesCache != nil && b.sendingMessagesCache.Map != nil && len(r.msg.Options) < 100000 && len(r.msg.Token) <= 8
+//@   modifies anything
+//@   opaque-calls pure
+//@   lockinv [no-nil-elements] forall k int :: {present(b.sendingMessagesCache.Map.data, k)} present(b.sendingMessagesCache.Map.data, k) ==> b.sendingMessagesCache.Map.data[k] != nil
+//@   ensures [claims-token-at-most-once] callCount(LoadOrStore) <= 1 && notCalled(Store)
+//@   ensures [token-in-use-refused] called(LoadOrStore) && callRes(LoadOrStore, 0, 1) ==> err != nil && resp == nil && notCalled(Delete) && notCalled(do)
+//@   ensures [nothing-before-the-claim] notCalled(LoadOrStore) ==> err != nil && resp == nil && notCalled(Delete) && notCalled(do)
+//@   ensures [entry-removed-after-the-exchange] called(LoadOrStore) && !callRes(LoadOrStore, 0, 1) ==> callCount(Delete) == 1 && callArg(Delete, 0, 1) == callArg(LoadOrStore, 0, 1) && (called(do) ==> callSeq(do, 0) < callSeq(Delete, 0))
+//@   ensures [sent-at-most-once] callCount(do) <= 1
+//@   ensures [large-body-goes-as-first-block] called(EncodeBlockOption) ==> callArg(EncodeBlockOption, 0, 0) == maxSzx && callArg(EncodeBlockOption, 0, 1) == 0 && callArg(EncodeBlockOption, 0, 2) && (called(do) ==> callArg(do, 0, 0) == callRes(AcquireMessage, 0, 0))
+//@   ensures [small-body-goes-whole] called(do) && notCalled(EncodeBlockOption) ==> callArg(do, 0, 0) == r
+//@   ensures [first-block-options] called(do) && called(EncodeBlockOption) ==> callCount(SetOptionUint32) == 2 && callArg(SetOptionUint32, 0, 0) == callArg(do, 0, 0) && callArg(SetOptionUint32, 0, 1) == 60 && callArg(SetOptionUint32, 0, 2) == callRes(BodySize, 0, 0) && callArg(SetOptionUint32, 1, 0) == callArg(do, 0, 0) && callArg(SetOptionUint32, 1, 1) == 27 && callArg(SetOptionUint32, 1, 2) == callRes(EncodeBlockOption, 0, 0)
+//@   param do:
